@@ -1,2 +1,844 @@
+(* Lemmas and invariants about Model/Auth.v (the model the C14 correspondence driver runs). *)
 From Coq Require Import ZArith List Bool Lia.
 From ICS Require Import Base.Tree Model.Auth.
+Import ListNotations.
+Open Scope Z_scope.
+
+Ltac zb := repeat match goal with
+  | H : (_ =? _) = true |- _ => apply Z.eqb_eq in H
+  | H : (_ =? _) = false |- _ => apply Z.eqb_neq in H
+  | H : (_ <? _) = true |- _ => apply Z.ltb_lt in H
+  | H : (_ <? _) = false |- _ => apply Z.ltb_ge in H
+  | H : (_ <=? _) = true |- _ => apply Z.leb_le in H
+  | H : (_ <=? _) = false |- _ => apply Z.leb_gt in H
+  | H : negb _ = true |- _ => apply negb_true_iff in H
+  | H : negb _ = false |- _ => apply negb_false_iff in H
+  | H : _ && _ = true |- _ => apply andb_true_iff in H; destruct H
+  end.
+
+(* ---------------------------------------------------------------- association lists *)
+Lemma aget_aset_same : forall k v l, aget k (aset k v l) = Some v.
+Proof.
+  intros k v l; induction l as [|[k' v'] t IH]; simpl.
+  - rewrite Z.eqb_refl; reflexivity.
+  - destruct (k <? k') eqn:H1; [simpl; rewrite Z.eqb_refl; reflexivity|].
+    destruct (k =? k') eqn:H2; simpl; [rewrite Z.eqb_refl; reflexivity|].
+    rewrite H2; exact IH.
+Qed.
+
+Lemma aget_aset_other : forall k k' v l, k' <> k -> aget k' (aset k v l) = aget k' l.
+Proof.
+  intros k k' v l Hne; induction l as [|[k0 v0] t IH]; simpl.
+  - destruct (k' =? k) eqn:E; zb; [lia|reflexivity].
+  - destruct (k <? k0) eqn:H1.
+    + simpl. destruct (k' =? k) eqn:E; zb; [lia|reflexivity].
+    + destruct (k =? k0) eqn:H2; simpl.
+      * zb; subst k0. destruct (k' =? k) eqn:E; zb; [lia|reflexivity].
+      * destruct (k' =? k0); [reflexivity|exact IH].
+Qed.
+
+Lemma aget_adel_same : forall k l, aget k (adel k l) = None.
+Proof.
+  intros k l; induction l as [|[k0 v0] t IH]; simpl; [reflexivity|].
+  destruct (k =? k0) eqn:E; [exact IH|simpl; rewrite E; exact IH].
+Qed.
+
+Lemma aget_adel_other : forall k k' l, k' <> k -> aget k' (adel k l) = aget k' l.
+Proof.
+  intros k k' l Hne; induction l as [|[k0 v0] t IH]; simpl; [reflexivity|].
+  destruct (k =? k0) eqn:E.
+  - zb; subst k0. destruct (k' =? k) eqn:E2; zb; [lia|exact IH].
+  - simpl. destruct (k' =? k0); [reflexivity|exact IH].
+Qed.
+
+Lemma smem_sins_same : forall k l, smem k (sins k l) = true.
+Proof.
+  intros k l; induction l as [|k0 t IH]; simpl.
+  - rewrite Z.eqb_refl; reflexivity.
+  - destruct (k <? k0) eqn:H1; [simpl; rewrite Z.eqb_refl; reflexivity|].
+    destruct (k =? k0) eqn:H2; simpl; [rewrite H2; reflexivity|].
+    rewrite H2; exact IH.
+Qed.
+
+Lemma smem_sins_other : forall k k' l, k' <> k -> smem k' (sins k l) = smem k' l.
+Proof.
+  intros k k' l Hne; induction l as [|k0 t IH]; simpl.
+  - destruct (k' =? k) eqn:E; zb; [lia|reflexivity].
+  - destruct (k <? k0) eqn:H1.
+    + simpl. destruct (k' =? k) eqn:E; zb; [lia|reflexivity].
+    + destruct (k =? k0) eqn:H2; simpl; [reflexivity|].
+      destruct (k' =? k0); [reflexivity|exact IH].
+Qed.
+
+Lemma smem_sdel_other : forall k k' l, k' <> k -> smem k' (sdel k l) = smem k' l.
+Proof.
+  intros k k' l Hne; induction l as [|k0 t IH]; simpl; [reflexivity|].
+  destruct (k0 =? k) eqn:E; simpl.
+  - zb; subst k0. destruct (k' =? k) eqn:E2; zb; [lia|exact IH].
+  - destruct (k' =? k0); [reflexivity|exact IH].
+Qed.
+
+Lemma smem_fold_sins_other : forall auto l k', ~ In k' auto ->
+  smem k' (fold_left (fun acc v => sins v acc) auto l) = smem k' l.
+Proof.
+  induction auto as [|a t IH]; intros l k' Hn; simpl; [reflexivity|].
+  rewrite IH by (intro; apply Hn; right; assumption).
+  apply smem_sins_other. intro; apply Hn; left; congruence.
+Qed.
+
+(* ---------------------------------------------------------------- the consumer list *)
+Lemma nth_upd_same : forall n x l y, nth_error l n = Some y -> nth_error (upd_nth n x l) n = Some x.
+Proof.
+  induction n as [|n IH]; intros x l y H; destruct l as [|h t]; simpl in *; try discriminate; [reflexivity|].
+  eapply IH; eassumption.
+Qed.
+
+Lemma nth_upd_other : forall n m x l, n <> m -> nth_error (upd_nth n x l) m = nth_error l m.
+Proof.
+  induction n as [|n IH]; intros m x l Hne; destruct l as [|h t]; simpl; try reflexivity.
+  - destruct m; [congruence|reflexivity].
+  - destruct m; [reflexivity|]. simpl. apply IH. congruence.
+Qed.
+
+Lemma length_upd : forall n x l, length (upd_nth n x l) = length l.
+Proof.
+  induction n as [|n IH]; intros x l; destruct l as [|h t]; simpl; try reflexivity.
+  rewrite IH; reflexivity.
+Qed.
+
+Lemma get_cons_nonneg : forall s c cr, get_cons s c = Some cr -> 0 <= c.
+Proof. intros s c cr H; unfold get_cons in H; destruct (c <? 0) eqn:E; [discriminate|zb; lia]. Qed.
+
+Lemma get_put_same : forall s c x y, get_cons s c = Some y -> get_cons (put_cons s c x) c = Some x.
+Proof.
+  intros s c x y H; unfold get_cons in *; destruct (c <? 0); [discriminate|].
+  simpl. eapply nth_upd_same; eassumption.
+Qed.
+
+Lemma get_put_other : forall s c c' x, 0 <= c -> c' <> c -> get_cons (put_cons s c x) c' = get_cons s c'.
+Proof.
+  intros s c c' x Hc Hne; unfold get_cons; destruct (c' <? 0) eqn:E; [reflexivity|].
+  simpl. apply nth_upd_other. zb. intro Heq. apply Hne. apply Z2Nat.inj in Heq; lia.
+Qed.
+
+Lemma put_globals : forall s c x,
+  s_nvals (put_cons s c x) = s_nvals s /\ s_minrate (put_cons s c x) = s_minrate s /\
+  s_params (put_cons s c x) = s_params s /\ s_denoms (put_cons s c x) = s_denoms s /\
+  s_cparams (put_cons s c x) = s_cparams s /\ length (s_cons (put_cons s c x)) = length (s_cons s).
+Proof. intros; simpl; repeat split; apply length_upd. Qed.
+
+Lemma get_app_old : forall s c cr x, get_cons s c = Some cr -> get_cons (set_cons s (s_cons s ++ [x])) c = Some cr.
+Proof.
+  intros s c cr x H; unfold get_cons in *; destruct (c <? 0); [discriminate|]. simpl.
+  rewrite nth_error_app1; [assumption|]. apply nth_error_Some. congruence.
+Qed.
+
+(* ---------------------------------------------------------------- error classes are non-zero *)
+Ltac break_if :=
+  match goal with
+  | H : context [if ?b then _ else _] |- _ => destruct b eqn:?
+  | H : context [match ?x with _ => _ end] |- _ => destruct x eqn:?
+  end.
+
+Lemma err_codes : E_VB <> 0 /\ E_UNAUTH <> 0 /\ E_PHASE <> 0 /\ E_TOPN <> 0 /\ E_OTHER <> 0.
+Proof. unfold E_VB, E_UNAUTH, E_PHASE, E_TOPN, E_OTHER; repeat split; lia. Qed.
+
+Ltac solve_err :=
+  repeat (first [discriminate | match goal with H : Err _ = Err _ |- _ => inversion H; subst; clear H end | break_if]);
+  try (unfold E_VB, E_UNAUTH, E_PHASE, E_TOPN, E_OTHER; lia).
+
+Lemma assign_key_err : forall nv c v k e, assign_key nv c v k = Err e -> e <> 0.
+Proof. intros nv c v k e H; unfold assign_key, bind in H; solve_err. Qed.
+
+Lemma update_consumer_err : forall c sd no tn ini e, update_consumer c sd no tn ini = Err e -> e <> 0.
+Proof. intros c sd no tn ini e H; unfold update_consumer, bind in H; solve_err. Qed.
+
+Lemma val_msg_err : forall s c v none f e,
+  none <> 0 -> (forall cr e', f cr = Err e' -> e' <> 0) -> val_msg s c v none f = Err e -> e <> 0.
+Proof.
+  intros s c v none f e Hn Hf H; unfold val_msg, bind in H.
+  destruct (negb (v <? s_nvals s)); [inversion H; unfold E_OTHER; lia|].
+  destruct (get_cons s c) as [cr|]; [|inversion H; subst; assumption].
+  destruct (f cr) eqn:E; [discriminate|]. inversion H; subst. eapply Hf; eassumption.
+Qed.
+
+Lemma handler_err : forall s o e, handler s o = Err e -> e <> 0.
+Proof.
+  intros s o e H; destruct o; cbn [handler] in H.
+  - unfold create_consumer, bind in H; solve_err.
+  - destruct (get_cons s c) as [cr|]; [|inversion H; unfold E_PHASE; lia].
+    unfold bind in H. destruct (update_consumer cr sender no topn ini) eqn:E; [discriminate|].
+    inversion H; subst. eapply update_consumer_err; eassumption.
+  - destruct (get_cons s c) as [cr|]; [|inversion H; unfold E_OTHER; lia].
+    unfold bind, remove_consumer in H; solve_err.
+  - solve_err.
+  - solve_err.
+  - eapply val_msg_err; [| |eassumption]; [unfold E_PHASE; lia|].
+    intros cr e' H'; unfold handle_opt_in in H'.
+    destruct (negb (active (c_phase cr))); [inversion H'; unfold E_PHASE; lia|].
+    destruct (key =? 0); [discriminate|]. eapply assign_key_err; eassumption.
+  - eapply val_msg_err; [| |eassumption]; [unfold E_OTHER; lia|].
+    intros cr e' H'; unfold handle_opt_out in H'; solve_err.
+  - eapply val_msg_err; [| |eassumption]; [unfold E_PHASE; lia|].
+    intros cr e' H'; cbv beta in H'; eapply assign_key_err; exact H'.
+  - eapply val_msg_err; [| |eassumption]; [unfold E_PHASE; lia|].
+    intros cr e' H'; unfold handle_commission in H'; solve_err.
+  - discriminate.
+  - solve_err.
+Qed.
+
+(* the three possible shapes of a step *)
+Lemma step_cases : forall s o,
+  (validate_basic o = false /\ step s o = (E_VB, s)) \/
+  (validate_basic o = true /\ exists e, handler s o = Err e /\ e <> 0 /\ step s o = (e, s)) \/
+  (validate_basic o = true /\ exists s', handler s o = Ok s' /\ step s o = (0, s')).
+Proof.
+  intros s o; unfold step. destruct (validate_basic o) eqn:V; simpl; [|left; auto].
+  destruct (handler s o) as [s'|e] eqn:H.
+  - right; right; split; [reflexivity|]. exists s'; auto.
+  - right; left; split; [reflexivity|]. exists e; repeat split; auto. eapply handler_err; eassumption.
+Qed.
+
+Lemma step_reject_unchanged : forall s o, fst (step s o) <> 0 -> snd (step s o) = s.
+Proof.
+  intros s o H. destruct (step_cases s o) as [[_ E]|[[_ [e [_ [_ E]]]]|[_ [s' [_ E]]]]]; rewrite E in *; simpl in *;
+    [reflexivity|reflexivity|congruence].
+Qed.
+
+Lemma step_ok_handler : forall s o, fst (step s o) = 0 ->
+  validate_basic o = true /\ handler s o = Ok (snd (step s o)).
+Proof.
+  intros s o H. destruct (step_cases s o) as [[_ E]|[[_ [e [_ [Hne E]]]]|[V [s' [Hh E]]]]]; rewrite E in *; simpl in *.
+  - unfold E_VB in H; lia.
+  - congruence.
+  - auto.
+Qed.
+
+(* ---------------------------------------------------------------- what the handlers do to a record *)
+Lemma initialize_frame : forall c,
+  c_owner (initialize c) = c_owner c /\ c_topn (initialize c) = c_topn c /\ c_opted (initialize c) = c_opted c /\
+  c_keys (initialize c) = c_keys c /\ c_used (initialize c) = c_used c /\ c_comm (initialize c) = c_comm c.
+Proof. intro c; unfold initialize; destruct (prelaunched (c_phase c) && c_spawn c); simpl; repeat split. Qed.
+
+Definition new_owner_of (no : nown) (old : Z) : Z := match no with NewOwner a => a | _ => old end.
+Definition new_topn_of (tn : option Z) (old : Z) : Z := match tn with Some n => n | None => old end.
+
+Lemma update_consumer_ok : forall c sd no tn ini c',
+  update_consumer c sd no tn ini = Ok c' ->
+  sd = c_owner c /\ active (c_phase c) = true /\
+  c_owner c' = new_owner_of no (c_owner c) /\
+  c_topn c' = new_topn_of tn (c_topn c) /\
+  (c_topn c' <> 0 -> c_owner c' = gov) /\
+  (forall n, tn = Some n -> n <> 0 -> c_owner c = gov) /\
+  c_opted c' = c_opted c /\ c_keys c' = c_keys c /\ c_used c' = c_used c /\ c_comm c' = c_comm c.
+Proof.
+  intros c sd no tn ini c' H. unfold update_consumer, bind in H.
+  destruct (negb (active (c_phase c))) eqn:Ha; [discriminate|].
+  destruct (negb (sd =? c_owner c)) eqn:Ho; [discriminate|].
+  match type of H with match ?X with _ => _ end = _ => destruct X as [c1|] eqn:E1; [|discriminate] end.
+  match type of H with match ?X with _ => _ end = _ => destruct X as [c2|] eqn:E2; [|discriminate] end.
+  match type of H with match ?X with _ => _ end = _ => destruct X as [c3|] eqn:E3; [|discriminate] end.
+  destruct (negb (c_topn c3 =? 0) && negb (c_owner c3 =? gov)) eqn:E4; [discriminate|].
+  inversion H; subst c'; clear H.
+  assert (F1 : c_owner c1 = new_owner_of no (c_owner c) /\ c_topn c1 = c_topn c /\ c_opted c1 = c_opted c /\
+               c_keys c1 = c_keys c /\ c_used c1 = c_used c /\ c_comm c1 = c_comm c).
+  { destruct no; inversion E1; subst; simpl; repeat split. }
+  assert (F2 : c_owner c2 = c_owner c1 /\ c_topn c2 = c_topn c1 /\ c_opted c2 = c_opted c1 /\
+               c_keys c2 = c_keys c1 /\ c_used c2 = c_used c1 /\ c_comm c2 = c_comm c1).
+  { destruct ini.
+    - inversion E2; subst; repeat split.
+    - destruct (negb (prelaunched (c_phase c1))); [discriminate|]. inversion E2; subst; simpl; repeat split.
+    - destruct (negb (prelaunched (c_phase c1))); [discriminate|]. inversion E2; subst.
+      destruct (c_phase c1 =? 2); simpl; repeat split. }
+  assert (F3 : c_owner c3 = c_owner c2 /\ c_topn c3 = new_topn_of tn (c_topn c2) /\ c_opted c3 = c_opted c2 /\
+               c_keys c3 = c_keys c2 /\ c_used c3 = c_used c2 /\ c_comm c3 = c_comm c2 /\
+               (forall n, tn = Some n -> n <> 0 -> c_owner c = gov)).
+  { destruct tn as [n|].
+    - destruct (negb (n =? 0) && negb (c_owner c =? gov)) eqn:E; [discriminate|].
+      inversion E3; subst; simpl; repeat split.
+      intros n0 Hn0 Hne; inversion Hn0; subst n0.
+      apply andb_false_iff in E; destruct E as [E|E]; zb; [lia|assumption].
+    - inversion E3; subst; simpl; repeat split. intros n0 Hn0; discriminate. }
+  destruct (initialize_frame c3) as [I1 [I2 [I3 [I4 [I5 I6]]]]].
+  destruct F1 as [A1 [A2 [A3 [A4 [A5 A6]]]]]. destruct F2 as [B1 [B2 [B3 [B4 [B5 B6]]]]].
+  destruct F3 as [C1 [C2 [C3 [C4 [C5 [C6 C7]]]]]].
+  zb.
+  refine (conj _ (conj _ (conj _ (conj _ (conj _ (conj _ (conj _ (conj _ (conj _ _))))))))); try congruence.
+  - rewrite I1, I2. intro Hne. apply andb_false_iff in E4; destruct E4 as [E|E]; zb; [lia|assumption].
+  - exact C7.
+Qed.
+
+Lemma remove_consumer_ok : forall c sd c', remove_consumer c sd = Ok c' ->
+  sd = c_owner c /\ c_phase c = 3 /\ c' = set_phase c 4.
+Proof.
+  intros c sd c' H; unfold remove_consumer in H.
+  destruct (negb (sd =? c_owner c)) eqn:E1; [discriminate|].
+  destruct (negb (c_phase c =? 3)) eqn:E2; [discriminate|]. inversion H; zb; auto.
+Qed.
+
+Lemma create_consumer_ok : forall sd tn ini c', create_consumer sd tn ini = Ok c' ->
+  c_owner c' = sd /\ c_topn c' = 0 /\ c_opted c' = [] /\ c_keys c' = [] /\ c_used c' = [] /\ c_comm c' = [] /\
+  (c_phase c' = 1 \/ c_phase c' = 2).
+Proof.
+  intros sd tn ini c' H; unfold create_consumer, bind in H.
+  destruct tn as [n|].
+  - destruct (negb (n =? 0)) eqn:E; [discriminate|]. zb; subst n. inversion H; subst.
+    unfold initialize; destruct ini; simpl; repeat split; auto.
+  - inversion H; subst. unfold initialize; destruct ini; simpl; repeat split; auto.
+Qed.
+
+(* ---- validator handlers: records of other validators are untouched ---- *)
+(* key-assignment consistency of one consumer: the consumer-address index points back to the assigner *)
+Definition kinv (c : cons) : Prop := forall v k, aget v (c_keys c) = Some k -> aget k (c_used c) = Some v.
+
+Definition vframe (v : Z) (a b : cons) : Prop :=
+  c_phase a = c_phase b /\ c_owner a = c_owner b /\ c_topn a = c_topn b /\ c_spawn a = c_spawn b /\
+  (forall v', v' <> v -> smem v' (c_opted a) = smem v' (c_opted b)) /\
+  (forall v', v' <> v -> aget v' (c_keys a) = aget v' (c_keys b)) /\
+  (forall v', v' <> v -> aget v' (c_comm a) = aget v' (c_comm b)) /\
+  (forall k v', v' <> v -> (aget k (c_used a) = Some v' <-> aget k (c_used b) = Some v')).
+
+Lemma vframe_refl : forall v a, vframe v a a.
+Proof. intros; unfold vframe; repeat split; auto. Qed.
+
+Lemma vframe_trans : forall v a b c, vframe v a b -> vframe v b c -> vframe v a c.
+Proof.
+  intros v a b c [A1 [A2 [A3 [A4 [A5 [A6 [A7 A8]]]]]]] [B1 [B2 [B3 [B4 [B5 [B6 [B7 B8]]]]]]].
+  unfold vframe; repeat split; try congruence.
+  - intros; rewrite A5, B5; auto.
+  - intros; rewrite A6, B6; auto.
+  - intros; rewrite A7, B7; auto.
+  - intro H0; apply B8; auto; apply A8; auto.
+  - intro H0; apply A8; auto; apply B8; auto.
+Qed.
+
+Lemma assign_key_ok : forall nv c v k c', kinv c -> assign_key nv c v k = Ok c' -> vframe v c c' /\ kinv c'.
+Proof.
+  intros nv c v k c' HK H. unfold assign_key, bind in H.
+  destruct (negb (active (c_phase c))); [discriminate|].
+  match type of H with match ?X with _ => _ end = _ => destruct X as [[]|]; [|discriminate] end.
+  destruct (aget k (c_used c)) eqn:Eu; [discriminate|]. inversion H; subst c'; clear H.
+  set (used1 := match aget v (c_keys c) with
+                | Some old => if c_phase c =? 3 then c_used c else adel old (c_used c)
+                | None => c_used c end).
+  (* lookups in used1 *)
+  assert (U1 : forall k' v', v' <> v -> (aget k' (c_used c) = Some v' <-> aget k' used1 = Some v')).
+  { intros k' v' Hne. unfold used1. destruct (aget v (c_keys c)) as [old|] eqn:Eo; [|tauto].
+    destruct (c_phase c =? 3); [tauto|].
+    destruct (Z.eq_dec k' old) as [->|Hko].
+    - rewrite aget_adel_same. rewrite (HK v old Eo). split; [intro X; inversion X; congruence|discriminate].
+    - rewrite aget_adel_other by assumption. tauto. }
+  assert (U2 : aget k used1 = None).
+  { unfold used1. destruct (aget v (c_keys c)) as [old|]; [|assumption].
+    destruct (c_phase c =? 3); [assumption|].
+    destruct (Z.eq_dec k old) as [->|Hko]; [apply aget_adel_same|rewrite aget_adel_other; assumption]. }
+  split.
+  - unfold vframe; simpl; repeat split; auto.
+    + intros v' Hne; rewrite aget_aset_other; auto.
+    + intro H0. destruct (Z.eq_dec k0 k) as [->|Hk]; [congruence|].
+      rewrite aget_aset_other by assumption. apply U1; assumption.
+    + intro H0. destruct (Z.eq_dec k0 k) as [->|Hk].
+      * rewrite aget_aset_same in H0; congruence.
+      * rewrite aget_aset_other in H0 by assumption. apply U1 in H0; assumption.
+  - unfold kinv; simpl. intros v0 k0 H0.
+    destruct (Z.eq_dec v0 v) as [->|Hv].
+    + rewrite aget_aset_same in H0; inversion H0; subst k0. apply aget_aset_same.
+    + rewrite aget_aset_other in H0 by assumption. pose proof (HK v0 k0 H0) as H1.
+      destruct (Z.eq_dec k0 k) as [->|Hk]; [congruence|].
+      rewrite aget_aset_other by assumption. apply U1; assumption.
+Qed.
+
+Lemma handle_opt_in_ok : forall nv c v k c', kinv c -> handle_opt_in nv c v k = Ok c' -> vframe v c c' /\ kinv c'.
+Proof.
+  intros nv c v k c' HK H. unfold handle_opt_in in H.
+  destruct (negb (active (c_phase c))); [discriminate|].
+  assert (F : vframe v c (set_opted c (sins v (c_opted c)))).
+  { unfold vframe; simpl; repeat split; auto. intros v' Hne; rewrite smem_sins_other; auto. }
+  destruct (k =? 0).
+  - inversion H; subst. split; [exact F|exact HK].
+  - apply assign_key_ok in H; [|exact HK]. destruct H as [F2 K2]. split; [eapply vframe_trans; eassumption|exact K2].
+Qed.
+
+Lemma handle_opt_out_ok : forall c v below c', kinv c -> handle_opt_out c v below = Ok c' -> vframe v c c' /\ kinv c'.
+Proof.
+  intros c v below c' HK H. unfold handle_opt_out in H.
+  destruct (negb (c_phase c =? 3)); [discriminate|].
+  destruct (negb (c_topn c =? 0) && negb below); [discriminate|]. inversion H; subst.
+  split; [|exact HK]. unfold vframe; simpl; repeat split; auto. intros v' Hne; rewrite smem_sdel_other; auto.
+Qed.
+
+Lemma handle_commission_ok : forall mr c v r c', kinv c -> handle_commission mr c v r = Ok c' -> vframe v c c' /\ kinv c'.
+Proof.
+  intros mr c v r c' HK H. unfold handle_commission in H.
+  destruct (negb (active (c_phase c))); [discriminate|].
+  destruct (r <? mr); [discriminate|]. inversion H; subst.
+  split; [|exact HK]. unfold vframe; simpl; repeat split; auto. intros v' Hne; rewrite aget_aset_other; auto.
+Qed.
+
+(* the part of the frame that needs no invariant *)
+Definition bframe (a b : cons) : Prop :=
+  c_phase a = c_phase b /\ c_owner a = c_owner b /\ c_topn a = c_topn b /\ c_spawn a = c_spawn b.
+
+Lemma assign_key_basic : forall nv c v k c', assign_key nv c v k = Ok c' -> bframe c c'.
+Proof.
+  intros nv c v k c' H. unfold assign_key, bind in H.
+  destruct (negb (active (c_phase c))); [discriminate|].
+  match type of H with match ?X with _ => _ end = _ => destruct X as [[]|]; [|discriminate] end.
+  destruct (aget k (c_used c)); [discriminate|]. inversion H; subst. unfold bframe; simpl; auto.
+Qed.
+
+Lemma handle_opt_in_basic : forall nv c v k c', handle_opt_in nv c v k = Ok c' -> bframe c c'.
+Proof.
+  intros nv c v k c' H. unfold handle_opt_in in H.
+  destruct (negb (active (c_phase c))); [discriminate|].
+  destruct (k =? 0); [inversion H; subst; unfold bframe; simpl; auto|].
+  apply assign_key_basic in H. exact H.
+Qed.
+
+Lemma handle_opt_out_basic : forall c v below c', handle_opt_out c v below = Ok c' -> bframe c c'.
+Proof.
+  intros c v below c' H. unfold handle_opt_out in H.
+  destruct (negb (c_phase c =? 3)); [discriminate|].
+  destruct (negb (c_topn c =? 0) && negb below); [discriminate|]. inversion H; subst. unfold bframe; simpl; auto.
+Qed.
+
+Lemma handle_commission_basic : forall mr c v r c', handle_commission mr c v r = Ok c' -> bframe c c'.
+Proof.
+  intros mr c v r c' H. unfold handle_commission in H.
+  destruct (negb (active (c_phase c))); [discriminate|].
+  destruct (r <? mr); [discriminate|]. inversion H; subst. unfold bframe; simpl; auto.
+Qed.
+
+Lemma val_msg_ok : forall s c v none f s', val_msg s c v none f = Ok s' ->
+  v < s_nvals s /\ exists cr cr', get_cons s c = Some cr /\ f cr = Ok cr' /\ s' = put_cons s c cr'.
+Proof.
+  intros s c v none f s' H. unfold val_msg, bind in H.
+  destruct (negb (v <? s_nvals s)) eqn:E; [discriminate|].
+  destruct (get_cons s c) as [cr|] eqn:G; [|discriminate].
+  destruct (f cr) as [cr'|] eqn:F; [|discriminate]. inversion H; subst.
+  zb. split; [assumption|]. exists cr, cr'; auto.
+Qed.
+
+(* ---------------------------------------------------------------- invariants of every consumer record *)
+Lemma Forall_upd_nth : forall (P : cons -> Prop) n x l, Forall P l -> P x -> Forall P (upd_nth n x l).
+Proof.
+  intros P n; induction n as [|n IH]; intros x l HF Hx; destruct l as [|h t]; simpl; auto;
+    inversion HF; subst; constructor; auto.
+Qed.
+
+Lemma get_cons_In : forall s c cr, get_cons s c = Some cr -> In cr (s_cons s).
+Proof. intros s c cr H; unfold get_cons in H; destruct (c <? 0); [discriminate|]. eapply nth_error_In; eassumption. Qed.
+
+Lemma In_get_cons : forall s cr, In cr (s_cons s) -> exists c, get_cons s c = Some cr.
+Proof.
+  intros s cr H. apply In_nth_error in H. destruct H as [n Hn]. exists (Z.of_nat n).
+  unfold get_cons. destruct (Z.of_nat n <? 0) eqn:E; [zb; lia|]. rewrite Nat2Z.id. exact Hn.
+Qed.
+
+Lemma Forall_get : forall (P : cons -> Prop) s c cr, Forall P (s_cons s) -> get_cons s c = Some cr -> P cr.
+Proof. intros P s c cr HF G. rewrite Forall_forall in HF. apply HF. eapply get_cons_In; eassumption. Qed.
+
+Section Inv.
+  Variable P : cons -> Prop.
+  Hypothesis P_create : forall sd tn ini cr, create_consumer sd tn ini = Ok cr -> P cr.
+  Hypothesis P_update : forall cr sd no tn ini cr',
+    (forall n, tn = Some n -> vb_topn n = true) -> P cr -> update_consumer cr sd no tn ini = Ok cr' -> P cr'.
+  Hypothesis P_phase : forall cr p, P cr -> P (set_phase cr p).
+  Hypothesis P_optin : forall nv cr v k cr', P cr -> handle_opt_in nv cr v k = Ok cr' -> P cr'.
+  Hypothesis P_optout : forall cr v b cr', P cr -> handle_opt_out cr v b = Ok cr' -> P cr'.
+  Hypothesis P_assign : forall nv cr v k cr', P cr -> assign_key nv cr v k = Ok cr' -> P cr'.
+  Hypothesis P_comm : forall mr cr v r cr', P cr -> handle_commission mr cr v r = Ok cr' -> P cr'.
+  Hypothesis P_launched : forall cr auto, P cr -> P (launched_rec cr auto).
+  Hypothesis P_unlaunched : forall cr, P cr -> P (unlaunched_rec cr).
+  Hypothesis P_deleted : forall cr, P cr -> P (deleted_rec cr).
+
+  Lemma env_step_preserves : forall e s, Forall P (s_cons s) -> Forall P (s_cons (env_step s e)).
+  Proof.
+    intros e s HF; destruct e as [c ok auto|c]; simpl.
+    - destruct (get_cons s c) as [cr|] eqn:G; [|assumption].
+      destruct (c_phase cr =? 2); [|assumption]. simpl. apply Forall_upd_nth; [assumption|].
+      pose proof (Forall_get P s c cr HF G). destruct ok; auto.
+    - destruct (get_cons s c) as [cr|] eqn:G; [|assumption].
+      destruct (c_phase cr =? 4); [|assumption]. simpl. apply Forall_upd_nth; [assumption|].
+      pose proof (Forall_get P s c cr HF G). auto.
+  Qed.
+
+  Lemma env_preserves : forall l s, Forall P (s_cons s) -> Forall P (s_cons (fold_left env_step l s)).
+  Proof. induction l as [|e t IH]; intros s HF; simpl; [assumption|]. apply IH. apply env_step_preserves; assumption. Qed.
+
+  Lemma val_msg_preserves : forall s c v none f s',
+    (forall cr cr', P cr -> f cr = Ok cr' -> P cr') ->
+    Forall P (s_cons s) -> val_msg s c v none f = Ok s' -> Forall P (s_cons s').
+  Proof.
+    intros s c v none f s' Hf HF H. apply val_msg_ok in H. destruct H as [_ [cr [cr' [G [F ->]]]]].
+    simpl. apply Forall_upd_nth; [assumption|]. eapply Hf; [|eassumption]. eapply Forall_get; eassumption.
+  Qed.
+
+  Lemma step_preserves : forall s o, Forall P (s_cons s) -> Forall P (s_cons (snd (step s o))).
+  Proof.
+    intros s o HF.
+    destruct (step_cases s o) as [[_ E]|[[_ [e [_ [_ E]]]]|[V [s' [Hh E]]]]]; rewrite E; simpl; auto.
+    destruct o; cbn [handler] in Hh.
+    - unfold bind in Hh. destruct (create_consumer sender topn ini) as [cr|] eqn:C; [|discriminate].
+      inversion Hh; subst; simpl. apply Forall_app; split; [assumption|]. constructor; [|constructor]. eauto.
+    - destruct (get_cons s c) as [cr|] eqn:G; [|discriminate]. unfold bind in Hh.
+      destruct (update_consumer cr sender no topn ini) as [cr'|] eqn:U; [|discriminate].
+      inversion Hh; subst; simpl. apply Forall_upd_nth; [assumption|].
+      eapply P_update; [|eapply Forall_get; eassumption|exact U].
+      intros n Hn; subst topn. simpl in V. zb. assumption.
+    - destruct (get_cons s c) as [cr|] eqn:G; [|discriminate]. unfold bind in Hh.
+      destruct (remove_consumer cr sender) as [cr'|] eqn:U; [|discriminate].
+      inversion Hh; subst; simpl. apply Forall_upd_nth; [assumption|].
+      apply remove_consumer_ok in U. destruct U as [_ [_ ->]]. apply P_phase. eapply Forall_get; eassumption.
+    - destruct (negb (authority =? gov)); [discriminate|]. destruct (p <=? 0); [discriminate|]. inversion Hh; subst; assumption.
+    - destruct (negb (authority =? gov)); [discriminate|]. inversion Hh; subst; assumption.
+    - eapply val_msg_preserves; [|eassumption|eassumption]. intros; cbv beta in *; eapply P_optin; eassumption.
+    - eapply val_msg_preserves; [|eassumption|eassumption]. intros; cbv beta in *; eapply P_optout; eassumption.
+    - eapply val_msg_preserves; [|eassumption|eassumption]. intros; cbv beta in *; eapply P_assign; eassumption.
+    - eapply val_msg_preserves; [|eassumption|eassumption]. intros; cbv beta in *; eapply P_comm; eassumption.
+    - inversion Hh; subst. apply env_preserves; assumption.
+    - destruct (negb (authority =? gov)); [discriminate|]. destruct (p <=? 0); [discriminate|]. inversion Hh; subst; assumption.
+  Qed.
+
+  Lemma run_ops_preserves : forall l s, Forall P (s_cons s) -> Forall P (s_cons (run_ops s l)).
+  Proof.
+    unfold run_ops. induction l as [|o t IH]; intros s HF; simpl; [assumption|]. apply IH. apply step_preserves; assumption.
+  Qed.
+End Inv.
+
+(* ---- Top_N <> 0 -> owned by the authority and within 50..100 ---- *)
+Definition topn_ok_rec (cr : cons) : Prop := c_topn cr <> 0 -> c_owner cr = gov /\ 50 <= c_topn cr <= 100.
+Definition topn_inv (s : state) : Prop := Forall topn_ok_rec (s_cons s).
+
+Lemma bframe_topn : forall a b, bframe a b -> topn_ok_rec a -> topn_ok_rec b.
+Proof. intros a b [_ [H1 [H2 _]]] H; unfold topn_ok_rec in *; rewrite <- H1, <- H2; exact H. Qed.
+
+Lemma topn_inv_step : forall s o, topn_inv s -> topn_inv (snd (step s o)).
+Proof.
+  unfold topn_inv. apply step_preserves.
+  - intros sd tn ini cr H. apply create_consumer_ok in H. destruct H as [_ [H _]]. unfold topn_ok_rec; intro; congruence.
+  - intros cr sd no tn ini cr' Hvb HP H. apply update_consumer_ok in H.
+    destruct H as [_ [_ [_ [Ht [Hg _]]]]]. unfold topn_ok_rec in *. intro Hne. split; [auto|].
+    rewrite Ht in *. destruct tn as [n|]; simpl in *.
+    + specialize (Hvb n eq_refl). unfold vb_topn in Hvb. zb.
+      apply andb_false_iff in Hvb. destruct Hvb as [Hvb|Hvb]; zb; [lia|].
+      apply orb_false_iff in Hvb. destruct Hvb; zb; lia.
+    + apply HP; assumption.
+  - intros cr p H; exact H.
+  - intros nv cr v k cr' HP H. eapply bframe_topn; [eapply handle_opt_in_basic; eassumption|assumption].
+  - intros cr v b cr' HP H. eapply bframe_topn; [eapply handle_opt_out_basic; eassumption|assumption].
+  - intros nv cr v k cr' HP H. eapply bframe_topn; [eapply assign_key_basic; eassumption|assumption].
+  - intros mr cr v r cr' HP H. eapply bframe_topn; [eapply handle_commission_basic; eassumption|assumption].
+  - intros cr auto H; exact H.
+  - intros cr H; exact H.
+  - intros cr H; exact H.
+Qed.
+
+Lemma topn_inv_init : forall nv mr p cp, topn_inv (init_state nv mr p cp).
+Proof. intros; unfold topn_inv; simpl; constructor. Qed.
+
+Lemma topn_inv_reachable : forall nv mr p cp ops, topn_inv (run_ops (init_state nv mr p cp) ops).
+Proof.
+  intros nv mr p cp ops. assert (G : forall l s, topn_inv s -> topn_inv (run_ops s l)).
+  { unfold run_ops. induction l as [|o t IH]; intros s H; simpl; [assumption|]. apply IH. apply topn_inv_step; assumption. }
+  apply G. apply topn_inv_init.
+Qed.
+
+Lemma topn_inv_get : forall s c cr, topn_inv s -> get_cons s c = Some cr -> c_topn cr <> 0 ->
+  c_owner cr = gov /\ 50 <= c_topn cr <= 100.
+Proof. intros s c cr HI G. exact (Forall_get topn_ok_rec s c cr HI G). Qed.
+
+(* ---- key-assignment consistency ---- *)
+Definition key_inv (s : state) : Prop := Forall kinv (s_cons s).
+
+Lemma kinv_same_keys : forall a b, c_keys a = c_keys b -> c_used a = c_used b -> kinv a -> kinv b.
+Proof. intros a b H1 H2 H; unfold kinv in *; rewrite <- H1, <- H2; exact H. Qed.
+
+Lemma key_inv_step : forall s o, key_inv s -> key_inv (snd (step s o)).
+Proof.
+  unfold key_inv. apply step_preserves.
+  - intros sd tn ini cr H. apply create_consumer_ok in H. destruct H as [_ [_ [_ [Hk _]]]].
+    unfold kinv; rewrite Hk; simpl; discriminate.
+  - intros cr sd no tn ini cr' _ HP H. apply update_consumer_ok in H.
+    destruct H as [_ [_ [_ [_ [_ [_ [_ [Hk [Hu _]]]]]]]]]. eapply kinv_same_keys; [| |exact HP]; congruence.
+  - intros cr p H; exact H.
+  - intros nv cr v k cr' HP H. eapply handle_opt_in_ok; eassumption.
+  - intros cr v b cr' HP H. eapply handle_opt_out_ok; eassumption.
+  - intros nv cr v k cr' HP H. eapply assign_key_ok; eassumption.
+  - intros mr cr v r cr' HP H. eapply handle_commission_ok; eassumption.
+  - intros cr auto H; exact H.
+  - intros cr H; exact H.
+  - intros cr H; unfold kinv; simpl; discriminate.
+Qed.
+
+Lemma key_inv_reachable : forall nv mr p cp ops, key_inv (run_ops (init_state nv mr p cp) ops).
+Proof.
+  intros nv mr p cp ops. assert (G : forall l s, key_inv s -> key_inv (run_ops s l)).
+  { unfold run_ops. induction l as [|o t IH]; intros s H; simpl; [assumption|]. apply IH. apply key_inv_step; assumption. }
+  apply G. unfold key_inv; simpl; constructor.
+Qed.
+
+(* ---------------------------------------------------------------- classification of messages *)
+Definition owner_msg (o : op) : option (Z * Z) :=
+  match o with Update c sd _ _ _ => Some (c, sd) | Remove c sd => Some (c, sd) | _ => None end.
+Definition authority_of (o : op) : option Z :=
+  match o with UpdateParams a _ => Some a | ChangeDenoms a _ _ => Some a | CUpdateParams a _ => Some a | _ => None end.
+Definition validator_msg (o : op) : option (Z * Z * Z) :=
+  match o with
+  | OptIn c v sg _ => Some (c, v, sg) | OptOut c v sg _ => Some (c, v, sg)
+  | AssignKey c v sg _ => Some (c, v, sg) | SetCommission c v sg _ => Some (c, v, sg)
+  | _ => None
+  end.
+
+(* ---------------------------------------------------------------- owner only *)
+Lemma owner_only_success : forall s o c sd,
+  owner_msg o = Some (c, sd) -> fst (step s o) = 0 -> owner_of s c = Some sd.
+Proof.
+  intros s o c sd Hm H0. apply step_ok_handler in H0. destruct H0 as [_ Hh].
+  destruct o; try discriminate; simpl in Hm; inversion Hm; subst; cbn [handler] in Hh; unfold owner_of.
+  - destruct (get_cons s c) as [cr|]; [|discriminate]. unfold bind in Hh.
+    destruct (update_consumer cr sd no topn ini) as [cr'|] eqn:U; [|discriminate].
+    apply update_consumer_ok in U. destruct U as [U _]. simpl; congruence.
+  - destruct (get_cons s c) as [cr|]; [|discriminate]. unfold bind in Hh.
+    destruct (remove_consumer cr sd) as [cr'|] eqn:U; [|discriminate].
+    apply remove_consumer_ok in U. destruct U as [U _]. simpl; congruence.
+Qed.
+
+Lemma owner_only : forall s o c sd,
+  owner_msg o = Some (c, sd) -> owner_of s c <> Some sd -> fst (step s o) <> 0 /\ snd (step s o) = s.
+Proof.
+  intros s o c sd Hm Hne. assert (H : fst (step s o) <> 0).
+  { intro H0. apply Hne. eapply owner_only_success; eassumption. }
+  split; [assumption|apply step_reject_unchanged; assumption].
+Qed.
+
+(* ---------------------------------------------------------------- evolution of one consumer *)
+Lemma env_step_get : forall e s c cr, get_cons s c = Some cr ->
+  exists cr', get_cons (env_step s e) c = Some cr' /\ c_owner cr' = c_owner cr /\ c_topn cr' = c_topn cr.
+Proof.
+  intros e s c cr G; destruct e as [c0 ok auto|c0]; simpl.
+  - destruct (get_cons s c0) as [cr0|] eqn:G0; [|eauto]. destruct (c_phase cr0 =? 2); [|eauto].
+    destruct (Z.eq_dec c c0) as [->|Hne].
+    + rewrite G in G0; inversion G0; subst cr0. erewrite get_put_same by eassumption.
+      eexists; split; [reflexivity|]. destruct ok; simpl; auto.
+    + rewrite get_put_other; eauto using get_cons_nonneg.
+  - destruct (get_cons s c0) as [cr0|] eqn:G0; [|eauto]. destruct (c_phase cr0 =? 4); [|eauto].
+    destruct (Z.eq_dec c c0) as [->|Hne].
+    + rewrite G in G0; inversion G0; subst cr0. erewrite get_put_same by eassumption.
+      eexists; split; [reflexivity|]. simpl; auto.
+    + rewrite get_put_other; eauto using get_cons_nonneg.
+Qed.
+
+Lemma env_fold_get : forall l s c cr, get_cons s c = Some cr ->
+  exists cr', get_cons (fold_left env_step l s) c = Some cr' /\ c_owner cr' = c_owner cr /\ c_topn cr' = c_topn cr.
+Proof.
+  induction l as [|e t IH]; intros s c cr G; simpl; [eauto|].
+  destruct (env_step_get e s c cr G) as [cr1 [G1 [O1 T1]]].
+  destruct (IH _ c cr1 G1) as [cr2 [G2 [O2 T2]]]. exists cr2; repeat split; congruence.
+Qed.
+
+Lemma val_msg_get : forall s c0 v none f s' c cr,
+  (forall x y, f x = Ok y -> bframe x y) -> val_msg s c0 v none f = Ok s' -> get_cons s c = Some cr ->
+  exists cr', get_cons s' c = Some cr' /\ c_owner cr' = c_owner cr /\ c_topn cr' = c_topn cr.
+Proof.
+  intros s c0 v none f s' c cr Hf H G. apply val_msg_ok in H. destruct H as [_ [cr0 [cr0' [G0 [F ->]]]]].
+  destruct (Z.eq_dec c c0) as [->|Hne].
+  - rewrite G in G0; inversion G0; subst cr0. erewrite get_put_same by eassumption.
+    eexists; split; [reflexivity|]. apply Hf in F. destruct F as [_ [F1 [F2 _]]]. auto.
+  - rewrite get_put_other; eauto using get_cons_nonneg.
+Qed.
+
+Lemma step_evolution : forall s o c cr, get_cons s c = Some cr ->
+  exists cr', get_cons (snd (step s o)) c = Some cr' /\
+    ((c_owner cr' = c_owner cr /\ c_topn cr' = c_topn cr) \/
+     (fst (step s o) = 0 /\ exists sd no tn ini, o = Update c sd no tn ini /\ update_consumer cr sd no tn ini = Ok cr')).
+Proof.
+  intros s o c cr G.
+  destruct (step_cases s o) as [[_ E]|[[_ [e [_ [_ E]]]]|[V [s' [Hh E]]]]]; rewrite E; simpl; eauto.
+  destruct o; cbn [handler] in Hh.
+  - unfold bind in Hh. destruct (create_consumer sender topn ini) as [x|]; [|discriminate].
+    inversion Hh; subst. exists cr; split; [apply get_app_old; assumption|auto].
+  - destruct (get_cons s c0) as [cr0|] eqn:G0; [|discriminate]. unfold bind in Hh.
+    destruct (update_consumer cr0 sender no topn ini) as [cr0'|] eqn:U; [|discriminate]. inversion Hh; subst.
+    destruct (Z.eq_dec c c0) as [->|Hne].
+    + rewrite G in G0; inversion G0; subst cr0. erewrite get_put_same by eassumption.
+      eexists; split; [reflexivity|]. right. split; [reflexivity|]. exists sender, no, topn, ini; auto.
+    + rewrite get_put_other; eauto using get_cons_nonneg.
+  - destruct (get_cons s c0) as [cr0|] eqn:G0; [|discriminate]. unfold bind in Hh.
+    destruct (remove_consumer cr0 sender) as [cr0'|] eqn:U; [|discriminate]. inversion Hh; subst.
+    apply remove_consumer_ok in U. destruct U as [_ [_ ->]].
+    destruct (Z.eq_dec c c0) as [->|Hne].
+    + rewrite G in G0; inversion G0; subst cr0. erewrite get_put_same by eassumption.
+      eexists; split; [reflexivity|]. left; simpl; auto.
+    + rewrite get_put_other; eauto using get_cons_nonneg.
+  - destruct (negb (authority =? gov)); [discriminate|]. destruct (p <=? 0); [discriminate|]. inversion Hh; subst. eauto.
+  - destruct (negb (authority =? gov)); [discriminate|]. inversion Hh; subst. eauto.
+  - destruct (val_msg_get _ _ _ _ _ _ c cr (fun x y => handle_opt_in_basic _ x _ _ y) Hh G) as [cr' [G' [O T]]]; eauto.
+  - destruct (val_msg_get _ _ _ _ _ _ c cr (fun x y => handle_opt_out_basic x _ _ y) Hh G) as [cr' [G' [O T]]]; eauto.
+  - destruct (val_msg_get _ _ _ _ _ _ c cr (fun x y => assign_key_basic _ x _ _ y) Hh G) as [cr' [G' [O T]]]; eauto.
+  - destruct (val_msg_get _ _ _ _ _ _ c cr (fun x y => handle_commission_basic _ x _ _ y) Hh G) as [cr' [G' [O T]]]; eauto.
+  - inversion Hh; subst. destruct (env_fold_get l s c cr G) as [cr' [G' [O T]]]; eauto.
+  - destruct (negb (authority =? gov)); [discriminate|]. destruct (p <=? 0); [discriminate|]. inversion Hh; subst. eauto.
+Qed.
+
+Lemma owner_changes_only_by_transfer : forall s o c a, owner_of s c = Some a ->
+  exists a', owner_of (snd (step s o)) c = Some a' /\
+    (a' <> a -> fst (step s o) = 0 /\ exists tn ini, o = Update c a (NewOwner a') tn ini).
+Proof.
+  unfold owner_of. intros s o c a H. destruct (get_cons s c) as [cr|] eqn:G; [|discriminate].
+  simpl in H; inversion H; subst a.
+  destruct (step_evolution s o c cr G) as [cr' [G' [[Ho _]|[H0 [sd [no [tn [ini [-> U]]]]]]]]]; rewrite G'; simpl;
+    eexists; (split; [reflexivity|]).
+  - intro; congruence.
+  - intro Hne. split; [assumption|]. apply update_consumer_ok in U. destruct U as [Hs [_ [Hown _]]]. subst sd.
+    destruct no; simpl in Hown; try congruence. exists tn, ini. congruence.
+Qed.
+
+Lemma topn_changes_only_by_owner : forall s o c n, topn_of s c = Some n ->
+  exists n', topn_of (snd (step s o)) c = Some n' /\
+    (n' <> n -> fst (step s o) = 0 /\ exists a no ini, o = Update c a no (Some n') ini /\ owner_of s c = Some a).
+Proof.
+  unfold topn_of, owner_of. intros s o c n H. destruct (get_cons s c) as [cr|] eqn:G; [|discriminate].
+  simpl in H; inversion H; subst n.
+  destruct (step_evolution s o c cr G) as [cr' [G' [[_ Ht]|[H0 [sd [no [tn [ini [-> U]]]]]]]]]; rewrite G'; simpl;
+    eexists; (split; [reflexivity|]).
+  - intro; congruence.
+  - intro Hne. split; [assumption|]. apply update_consumer_ok in U. destruct U as [Hs [_ [_ [Htn _]]]]. subst sd.
+    destruct tn as [n0|]; simpl in Htn; [|congruence]. exists (c_owner cr), no, ini. split; congruence.
+Qed.
+
+(* a consumer's owner is stable over any sequence without an ownership-transfer message for it *)
+Lemma owner_stable : forall ops s c a, owner_of s c = Some a ->
+  (forall sd a' tn ini, ~ In (Update c sd (NewOwner a') tn ini) ops) ->
+  owner_of (run_ops s ops) c = Some a.
+Proof.
+  unfold run_ops. induction ops as [|o t IH]; intros s c a H Hn; simpl; [assumption|].
+  apply IH; [|intros sd a' tn ini Hin; eapply Hn; right; eassumption].
+  destruct (owner_changes_only_by_transfer s o c a H) as [a' [H' Hc]].
+  destruct (Z.eq_dec a' a) as [->|Hne]; [assumption|].
+  destruct (Hc Hne) as [_ [tn [ini ->]]]. exfalso. eapply Hn; left; reflexivity.
+Qed.
+
+(* ---------------------------------------------------------------- create *)
+Lemma create_optin_only : forall s sd tn ini,
+  (forall n, tn = Some n -> n <> 0 -> fst (step s (Create sd tn ini)) = E_VB) /\
+  (fst (step s (Create sd tn ini)) = 0 ->
+   exists cr, s_cons (snd (step s (Create sd tn ini))) = s_cons s ++ [cr] /\
+     c_owner cr = sd /\ c_topn cr = 0 /\ c_opted cr = [] /\ c_keys cr = [] /\ c_comm cr = [] /\
+     (c_phase cr = 1 \/ c_phase cr = 2)).
+Proof.
+  intros s sd tn ini; split.
+  - intros n -> Hne. unfold step. simpl. destruct (n =? 0) eqn:E; zb; [lia|reflexivity].
+  - intro H0. apply step_ok_handler in H0. destruct H0 as [_ Hh]. cbn [handler] in Hh. unfold bind in Hh.
+    destruct (create_consumer sd tn ini) as [cr|] eqn:C; [|discriminate].
+    apply create_consumer_ok in C. destruct C as [C1 [C2 [C3 [C4 [_ [C6 C7]]]]]].
+    exists cr. inversion Hh as [Hs]. simpl. auto 10.
+Qed.
+
+(* ---------------------------------------------------------------- governance only *)
+Lemma env_fold_globals : forall l s,
+  s_nvals (fold_left env_step l s) = s_nvals s /\ s_minrate (fold_left env_step l s) = s_minrate s /\
+  s_params (fold_left env_step l s) = s_params s /\ s_denoms (fold_left env_step l s) = s_denoms s /\
+  s_cparams (fold_left env_step l s) = s_cparams s /\ length (s_cons (fold_left env_step l s)) = length (s_cons s).
+Proof.
+  induction l as [|e t IH]; intro s; simpl; [repeat split|].
+  destruct (IH (env_step s e)) as [A1 [A2 [A3 [A4 [A5 A6]]]]].
+  assert (B : s_nvals (env_step s e) = s_nvals s /\ s_minrate (env_step s e) = s_minrate s /\
+              s_params (env_step s e) = s_params s /\ s_denoms (env_step s e) = s_denoms s /\
+              s_cparams (env_step s e) = s_cparams s /\ length (s_cons (env_step s e)) = length (s_cons s)).
+  { destruct e as [c ok auto|c]; simpl.
+    - destruct (get_cons s c) as [cr|]; [|repeat split]. destruct (c_phase cr =? 2); [apply put_globals|repeat split].
+    - destruct (get_cons s c) as [cr|]; [|repeat split]. destruct (c_phase cr =? 4); [apply put_globals|repeat split]. }
+  destruct B as [B1 [B2 [B3 [B4 [B5 B6]]]]]. repeat split; congruence.
+Qed.
+
+Lemma handler_globals : forall s o s', handler s o = Ok s' ->
+  s_nvals s' = s_nvals s /\ s_minrate s' = s_minrate s /\
+  ((s_params s' = s_params s /\ s_denoms s' = s_denoms s /\ s_cparams s' = s_cparams s) \/ authority_of o = Some gov).
+Proof.
+  intros s o s' Hh. destruct o; cbn [handler] in Hh.
+  - unfold bind in Hh. destruct (create_consumer sender topn ini); [|discriminate]. inversion Hh; subst; simpl; auto 10.
+  - destruct (get_cons s c); [|discriminate]. unfold bind in Hh.
+    destruct (update_consumer c0 sender no topn ini); [|discriminate]. inversion Hh; subst; simpl; auto 10.
+  - destruct (get_cons s c); [|discriminate]. unfold bind in Hh.
+    destruct (remove_consumer c0 sender); [|discriminate]. inversion Hh; subst; simpl; auto 10.
+  - destruct (negb (authority =? gov)) eqn:E; [discriminate|]. destruct (p <=? 0); [discriminate|].
+    inversion Hh; subst; simpl. zb. subst. auto 10.
+  - destruct (negb (authority =? gov)) eqn:E; [discriminate|]. inversion Hh; subst; simpl. zb. subst. auto 10.
+  - apply val_msg_ok in Hh. destruct Hh as [_ [x [y [_ [_ ->]]]]]. simpl; auto 10.
+  - apply val_msg_ok in Hh. destruct Hh as [_ [x [y [_ [_ ->]]]]]. simpl; auto 10.
+  - apply val_msg_ok in Hh. destruct Hh as [_ [x [y [_ [_ ->]]]]]. simpl; auto 10.
+  - apply val_msg_ok in Hh. destruct Hh as [_ [x [y [_ [_ ->]]]]]. simpl; auto 10.
+  - inversion Hh; subst. destruct (env_fold_globals l s) as [A1 [A2 [A3 [A4 [A5 _]]]]]. auto 10.
+  - destruct (negb (authority =? gov)) eqn:E; [discriminate|]. destruct (p <=? 0); [discriminate|].
+    inversion Hh; subst; simpl. zb. subst. auto 10.
+Qed.
+
+Lemma gov_only : forall s o,
+  (s_params (snd (step s o)) <> s_params s \/ s_denoms (snd (step s o)) <> s_denoms s \/
+   s_cparams (snd (step s o)) <> s_cparams s) ->
+  fst (step s o) = 0 /\ authority_of o = Some gov.
+Proof.
+  intros s o H.
+  destruct (step_cases s o) as [[_ E]|[[_ [e [_ [_ E]]]]|[V [s' [Hh E]]]]]; rewrite E in *; simpl in *.
+  - destruct H as [H|[H|H]]; congruence.
+  - destruct H as [H|[H|H]]; congruence.
+  - split; [reflexivity|]. apply handler_globals in Hh. destruct Hh as [_ [_ [[A [B C]]|Hg]]]; [|assumption].
+    destruct H as [H|[H|H]]; congruence.
+Qed.
+
+(* provider params / reward denoms / consumer params over a sequence without successful authority messages *)
+Lemma globals_stable : forall ops s,
+  (forall o, In o ops -> authority_of o <> Some gov) ->
+  s_params (run_ops s ops) = s_params s /\ s_denoms (run_ops s ops) = s_denoms s /\ s_cparams (run_ops s ops) = s_cparams s.
+Proof.
+  unfold run_ops. induction ops as [|o t IH]; intros s Hn; simpl; [auto|].
+  destruct (IH (snd (step s o)) (fun o' Hin => Hn o' (or_intror Hin))) as [A [B C]].
+  assert (G : s_params (snd (step s o)) = s_params s /\ s_denoms (snd (step s o)) = s_denoms s /\
+              s_cparams (snd (step s o)) = s_cparams s).
+  { destruct (Z.eq_dec (s_params (snd (step s o))) (s_params s)) as [E1|E1];
+      [|exfalso; apply (Hn o (or_introl eq_refl)); refine (proj2 (gov_only s o _)); auto].
+    destruct (list_eq_dec Z.eq_dec (s_denoms (snd (step s o))) (s_denoms s)) as [E2|E2];
+      [|exfalso; apply (Hn o (or_introl eq_refl)); refine (proj2 (gov_only s o _)); auto].
+    destruct (Z.eq_dec (s_cparams (snd (step s o))) (s_cparams s)) as [E3|E3];
+      [|exfalso; apply (Hn o (or_introl eq_refl)); refine (proj2 (gov_only s o _)); auto].
+    auto. }
+  destruct G as [G1 [G2 G3]]. repeat split; congruence.
+Qed.
+
+(* ---------------------------------------------------------------- the validator itself *)
+Lemma validator_only : forall s o c v sg, validator_msg o = Some (c, v, sg) ->
+  (sg <> oper_acct v -> step s o = (E_VB, s)) /\
+  (fst (step s o) = 0 -> sg = oper_acct v /\ 0 <= v < s_nvals s) /\
+  s_params (snd (step s o)) = s_params s /\ s_denoms (snd (step s o)) = s_denoms s /\
+  s_cparams (snd (step s o)) = s_cparams s /\ length (s_cons (snd (step s o))) = length (s_cons s) /\
+  (forall c', c' <> c -> get_cons (snd (step s o)) c' = get_cons s c') /\
+  (key_inv s -> forall cr, get_cons s c = Some cr ->
+     exists cr', get_cons (snd (step s o)) c = Some cr' /\ vframe v cr cr').
+Proof.
+  intros s o c v sg Hm.
+  assert (VB : validate_basic o = true -> sg = oper_acct v /\ 0 <= v).
+  { intro V. destruct o; try discriminate; simpl in Hm; inversion Hm; subst; simpl in V; unfold vb_provider_addr in V; zb; auto. }
+  assert (OK : forall s', handler s o = Ok s' ->
+     v < s_nvals s /\ exists cr cr', get_cons s c = Some cr /\ s' = put_cons s c cr' /\ (kinv cr -> vframe v cr cr')).
+  { intros s' Hh. destruct o; try discriminate; simpl in Hm; inversion Hm; subst; cbn [handler] in Hh;
+      apply val_msg_ok in Hh; destruct Hh as [Hv [cr [cr' [G [F ->]]]]]; (split; [assumption|]);
+      exists cr, cr'; (split; [assumption|]); (split; [reflexivity|]); intro K.
+    - eapply handle_opt_in_ok; eassumption.
+    - eapply handle_opt_out_ok; eassumption.
+    - eapply assign_key_ok; eassumption.
+    - eapply handle_commission_ok; eassumption. }
+  destruct (step_cases s o) as [[V E]|[[V [e [_ [Hne E]]]]|[V [s' [Hh E]]]]]; rewrite E; simpl.
+  - split; [reflexivity|]. split; [unfold E_VB; intro; lia|]. repeat split; auto.
+    intros _ cr G; exists cr; split; [assumption|apply vframe_refl].
+  - destruct (VB V) as [Hs Hv0]. split; [intro; contradiction|].
+    split; [intro; contradiction|].
+    repeat split; auto. intros _ cr G; exists cr; split; [assumption|apply vframe_refl].
+  - destruct (VB V) as [Hs Hv0]. destruct (OK s' Hh) as [Hv [cr [cr' [G [-> F]]]]].
+    split; [intro; contradiction|]. split; [intros _; split; [assumption|lia]|].
+    simpl. repeat split; auto.
+    + apply length_upd.
+    + intros c' Hne. apply get_put_other; [eapply get_cons_nonneg; eassumption|assumption].
+    + intros K cr0 G0. rewrite G in G0; inversion G0; subst cr0. exists cr'. split; [eapply get_put_same; eassumption|].
+      apply F. eapply Forall_get; eassumption.
+Qed.
